@@ -105,7 +105,7 @@ func (r *objectSetPhasesReconciler) Reconcile(
 ) (res ctrl.Result, err error) {
 	defer r.backoff.GC()
 
-	violations, err := r.preflightChecker.Check(ctx, objectSet.GetPhases())
+	violations, err := r.preflightChecker.Check(ctx, phasesWithDefaultedNamespace(objectSet))
 	if err != nil {
 		return res, err
 	}
@@ -182,6 +182,31 @@ func (r *objectSetPhasesReconciler) Reconcile(
 	}
 
 	return
+}
+
+// Objects without a namespace are created in the namespace of the ObjectSet.
+// Checks comparing object identities, like the duplicate check,
+// have to see the phases with that default applied.
+func phasesWithDefaultedNamespace(
+	objectSet adapters.ObjectSetAccessor,
+) []corev1alpha1.ObjectSetTemplatePhase {
+	phases := objectSet.GetPhases()
+	ns := objectSet.ClientObject().GetNamespace()
+	if len(ns) == 0 {
+		return phases
+	}
+
+	defaulted := make([]corev1alpha1.ObjectSetTemplatePhase, len(phases))
+	for i := range phases {
+		defaulted[i] = *phases[i].DeepCopy()
+		for j := range defaulted[i].Objects {
+			obj := &defaulted[i].Objects[j].Object
+			if len(obj.GetNamespace()) == 0 {
+				obj.SetNamespace(ns)
+			}
+		}
+	}
+	return defaulted
 }
 
 func (r *objectSetPhasesReconciler) reconcile(
